@@ -266,6 +266,9 @@ def rules(rep, m):
     else:
         r3.ok()
     listrules.check_list_removal(rep, r3, m, "cmi_process_drop_resources")
+    # the deregistrations the unwinding relies on unlink from the stored lists (shared with R-C04-5)
+    for fn_ in ("cmi_process_remove_waiter", "cmi_event_remove_waiter", "cmi_process_remove_awaitable"):
+        listrules.check_list_removal(rep, r3, m, fn_)
 
     # R-C09-4 ------------------------------------------------------------
     r4 = rep.rule("R-C09-4", "status and exit value of a coroutine are written only by initialise / start / exit / stop / "
